@@ -170,6 +170,26 @@ def rule_R12_7(ctx):
 PROP_MAP = "BTreeMap<std::string::String, eval::value::SourcedValue>"
 
 
+TRANSPORT_RE = re.compile(r"(^|::)(mem::take|mem::replace|clone|into_iter|iter|iter_mut|drain|"
+                          r"to_owned|into|from|borrow_mut|deref_mut|deref)$")
+
+
+def _merge_roots(f, operand, depth=0):
+    """Canonical roots a merge operand may carry the contents of: the operand
+    itself and, through `mem::take(&mut m)`, `m.clone()`, `m.into_iter()`..,
+    the map those were applied to."""
+    out = set()
+    cp = f.canon_op(operand)
+    if not cp:
+        return out
+    out.add(cp[0])
+    if cp[0][0] == "call" and depth < 6:
+        c = f.call_at(cp[0][1])
+        if c is not None and not c.is_ptr and c.args and TRANSPORT_RE.search((c.res or "").split("<")[0].rstrip(":")) :
+            out |= _merge_roots(f, c.args[0], depth + 1)
+    return out
+
+
 def rule_R12_9(ctx):
     """Direction of bulk merges into a property map that is being built.
     `a.append(&mut b)` / `a.extend(b)` let b's entries replace a's; an
@@ -206,8 +226,7 @@ def rule_R12_9(ctx):
         n_acc += len(accs)
         for c in bulk:
             n_bulk += 1
-            cp = f.canon_op(c.args[1])
-            if cp and cp[0] in accs:
+            if _merge_roots(f, c.args[1]) & accs:
                 r.fail("%s | accumulated entries folded into another map via %s" % (f0.path, (c.res or "").split("::")[-1]),
                        "%s passes the map it has been inserting into as the "
                        "*argument* of `%s`: the earlier entries then replace "
